@@ -497,7 +497,26 @@ func RuleDEachFile(c *core.Ctx) {
 								}
 							}
 						}
-						if combined {
+						// nothing that looks at the files one by one returns before they are
+						// all handed to the per-file function
+						early := ""
+						for _, body := range loopsOf(fn) {
+							for _, b := range fn.Blocks {
+								ret, ok := b.Instrs[len(b.Instrs)-1].(*ssa.Return)
+								if !ok || call.Block() == b || call.Block().Dominates(b) {
+									continue
+								}
+								// left from inside the loop
+								for _, pb := range b.Preds {
+									if body[pb] || body[b] {
+										early = p.Pos(ret.Pos())
+									}
+								}
+							}
+						}
+						if combined && early != "" {
+							c.Ob(rule, key, call.Pos(), core.FuncName(fn), core.Violated, "a loop in front of the per-file application returns at "+early+": a failure on one argument prevents every file from being formatted")
+						} else if combined {
 							c.Ob(rule, key, call.Pos(), core.FuncName(fn), core.Discharged, "the per-file function is applied to every argument by iter.Map and all errors are combined")
 						} else {
 							c.Ob(rule, key, call.Pos(), core.FuncName(fn), core.Violated, "the per-file errors are not all combined into the command's error")
